@@ -23,6 +23,8 @@ Outcome(c) == <<c.res, c.shape, c.oc>>
 Deterministic(memo, c) == (c.clock = 0 /\ c.key \in DOMAIN memo) => memo[c.key] = Outcome(c)
 Total(c) == c.cls = "well" => c.oc = "ok"
 FiniteValue(c) == (c.cls = "well" /\ c.oc = "ok") => c.fin = 1
+\* a one-argument perturbation of an in-domain call ("near") may leave the domain: it may be refused, but only cleanly
+NearClean(c) == c.cls = "near" => (c.oc \in Rejections \/ c.oc = "ok")
 RejectsCleanly(c) == c.cls = "ill" => (c.oc \in Rejections \/ (c.oc = "ok" /\ c.fin = 1))
 
 Remember(memo, c) == IF c.key \in DOMAIN memo THEN memo
